@@ -55,3 +55,20 @@ Definition run_report (p : N) (fs : list file_l) :=
    map (fun r => show_summ (lcov_summary (r_cov r))) rs,
    encode_files nc,
    map show_ade (encode_ade nc)).
+
+(* The size / boundary result sets (arrays of 2^16 .. 2^20 slots): the arrays are evaluated with line_array_n, which is
+   line_array with a binary line counter (Props/C03.v: C03_line_array_n; line_array converts every index from unary and is
+   quadratic to evaluate), and printed summarised: length, and the slots that hold data with their 1-based line. *)
+Fixpoint sparse_from {A} (keep : A -> bool) (i : N) (l : list A) : list (N * A) :=
+  match l with
+  | [] => []
+  | a :: l => if keep a then (i, a) :: sparse_from keep (i + 1) l else sparse_from keep (i + 1) l
+  end.
+Definition sparse {A} (keep : A -> bool) (l : list A) : N * list (N * A) := (N.of_nat (length l), sparse_from keep 1 l).
+Definition run_report_sparse (p : N) (fs : list file_l) :=
+  let rs := map rfile_of fs in
+  (map (fun r => let m := c_lines (r_cov r) in
+                 (r_rel r, show_cd (cd_file_stats m),
+                  sparse (fun z : bool * N => negb (z.1 && (z.2 =? 1))) (map show_z (line_array_n cd_cell m (last_line m))),
+                  sparse (fun o : option N => match o with Some _ => true | None => false end) (line_array_n id m (cv_end m - 1)))) rs,
+   show_cd (cd_set_stats (cd_build rs))).
